@@ -48,7 +48,9 @@ def run(chk, repo):
     chk.rule("C10-W2", "the tree of one open holds only this product's groups: no mutable default on the open path is filled across calls", 0)
     chk.attempt(w2_defaults, chk, OpenPath(repo))
     chk.attempt(a8, chk, repo)
-    chk.attempt(a9, chk, repo)
+    chk.rule("C13-A10", "to_datatree on a model hierarchy: one dataset per group under its own path, with the group's variables / attrs and its recorded coordinates", 5)
+    chk.attempt(tree_conversion_eval, chk, repo)
+    chk.attempt(a9, chk, repo, covered_by="tree_conversion_eval", rules=("C13-A9",))
     chk.count("functions", 12)
 
 
@@ -416,13 +418,35 @@ def a8(chk, repo):
     lm = repo.module("ceos_alos2.sar_leader.metadata")
     tm = lm.func("transform_metadata")
     ignored = transformers = None
-    for n in tm.own_nodes():
-        if isinstance(n, ast.Assign) and norm(n.targets[0]) == "ignored" and isinstance(n.value, ast.List):
-            ignored = [const_str(e) for e in n.value.elts]
-        if isinstance(n, ast.Assign) and norm(n.targets[0]) == "transformers" and isinstance(n.value, ast.Dict):
-            transformers = [const_str(k) for k in n.value.keys]
+    flow = Flow(tm)
+
+    def literal(e, depth=0):
+        """the list / tuple / dict literal an argument denotes: written in place, bound to a local, or hoisted to module level"""
+        if isinstance(e, (ast.List, ast.Tuple, ast.Dict, ast.Set)) or depth > 4:
+            return e
+        if isinstance(e, ast.Name):
+            d = flow.single_def(e.id)
+            if d is not None:
+                return literal(d, depth + 1)
+            r = repo.resolve_name(tm, e.id)
+            if r.kind == "value" and len(r.exprs) == 1:
+                return literal(r.exprs[0], depth + 1)
+        return e
+    for c in calls_in(tm):
+        callee = norm(c.func).split(".")[-1]
+        args = list(c.args)
+        if callee in ("curry", "partial") and args:
+            callee, args = norm(args[0]).split(".")[-1], args[1:]
+        if callee == "dissoc" and args:
+            lit = literal(args[0])
+            if isinstance(lit, (ast.List, ast.Tuple, ast.Set)) and all(const_str(e) is not None for e in lit.elts):
+                ignored = [const_str(e) for e in lit.elts]
+        if callee == "apply_to_items" and args:
+            lit = literal(args[0])
+            if isinstance(lit, ast.Dict) and all(k is not None and const_str(k) is not None for k in lit.keys):
+                transformers = [const_str(k) for k in lit.keys]
     if ignored is None or transformers is None:
-        raise AnalysisError("anchor vanished: ignored/transformers of sar_leader.metadata.transform_metadata")
+        raise AnalysisError("anchor vanished: the literal tables handed to dissoc / apply_to_items in sar_leader.metadata.transform_metadata")
     covered = set(ignored) | set(transformers)
     chk.require(covered == set(fields), "C13-A8", f"{lm.relpath}:transform_metadata", f"{len(transformers)} transformed + {len(ignored)} ignored == {len(fields)} leader records",
                 f"uncovered records {sorted(set(fields) - covered)} (pass through untransformed as raw dicts) / dangling table keys {sorted(covered - set(fields))}", key="leader:coverage",
@@ -454,6 +478,82 @@ def _spec(chk, rule, fi, spec, good, bad, key):
     if v == "incomparable":
         raise AnalysisError(f"{where}: normal form {show_paths(got)[:200]} differs in shape from its specification; equivalence not decided")
     chk.require(v == "equal", rule, where, good, f"{bad}: {show_paths(got)[:200]}", key=key)
+
+
+def tree_conversion_eval(chk, repo):
+    """C13-A10: xarray.to_datatree evaluated on a model hierarchy (root with attrs, /summary, /imagery, /imagery/HH and /imagery/HV with
+    per-line variables, a pixel variable and the 'coordinates' bookkeeping attribute; xarray itself replaced by recording
+    stubs): one dataset per group under its own path, in tree order, holding exactly that group's variables and attributes,
+    with the recorded line variables promoted to coordinates and the bookkeeping attribute removed"""
+    from collections import OrderedDict
+    from ..shapes import Const, DictS, Fn, Interp, ListLit, Obj, ShapeError, TupS, _Raise
+    xm = repo.module("ceos_alos2.xarray")
+    hm = repo.module("ceos_alos2.hierarchy")
+    where = f"{xm.relpath}:to_datatree"
+    gcls = repo.resolve_module_name(hm, "Group")
+    if gcls.kind != "class":
+        raise AnalysisError("anchor vanished: hierarchy.Group")
+    I = Interp(repo)
+    sc = I.module_scope(xm)
+
+    def V(name):
+        return Obj("Variable", OrderedDict(dims=ListLit([Const("rows")]), data=ListLit([Const(name)]), attrs=DictS({"of": Const(name)})))
+
+    def G(path, data, attrs):
+        return Obj("Group", OrderedDict(path=Const(path), url=Const("u"), data=DictS(data), attrs=DictS(attrs)), klass=(gcls.mod, gcls.node))
+    img = lambda p: G(f"/imagery/{p}", OrderedDict([("time", V(f"{p}.time")), ("lat", V(f"{p}.lat")), ("data", V(f"{p}.data"))]), OrderedDict([("coordinates", ListLit([Const("time"), Const("lat")])), ("pol", Const(p))]))
+    root = G("/", OrderedDict([("summary", G("/summary", OrderedDict([("info", G("/summary/info", {}, {"k": Const(1)}))]), {"s": Const("S")})), ("top", V("root.top")),
+                               ("imagery", G("/imagery", OrderedDict([("HH", img("HH")), ("HV", img("HV"))]), {}))]), {"vol": Const("V")})
+    made = []
+
+    def dataset(I_, a, kw):
+        variables = a[0] if a else kw.get("data_vars", DictS())
+        attrs = kw.get("attrs", a[2] if len(a) > 2 else DictS())
+        if isinstance(attrs, DictS):
+            attrs = attrs.copy()
+        ds = Obj("Dataset", OrderedDict(variables=variables, attrs=attrs, coords=ListLit([]), dims=ListLit([Const("rows")])))
+        ds.fields["pipe"] = Fn("py", impl=lambda I2, a2, k2: I2.call(a2[0], [ds] + list(a2[1:]), k2), name="pipe")
+
+        def set_coords(I2, a2, k2):
+            names = a2[0] if a2 else k2.get("names", ListLit([]))
+            ds.fields["coords"] = names
+            return ds
+        ds.fields["set_coords"] = Fn("py", impl=set_coords, name="set_coords")
+        ds.fields["chunk"] = Fn("py", impl=lambda I2, a2, k2: ds, name="chunk")
+        made.append(ds)
+        return ds
+    result = {}
+
+    def from_dict(I_, a, kw):
+        result["mapping"] = a[0] if a else None
+        return Obj("DataTree", OrderedDict())
+    sc.vars["xr"] = Obj("xarray", OrderedDict(Dataset=Fn("py", impl=dataset, name="xr.Dataset"), DataTree=Obj("DataTreeClass", OrderedDict(from_dict=Fn("py", impl=from_dict, name="from_dict")))))
+    sc.vars["to_variable"] = Fn("py", impl=lambda I_, a, k: Obj("xrVariable", OrderedDict(src=a[0])), name="to_variable")
+    try:
+        I.call(I.lookup("to_datatree", sc), [root], {})
+    except (ShapeError, _Raise, RecursionError) as e:
+        raise AnalysisError(f"{where}: cannot be evaluated on a model hierarchy: {str(e)[:140]}")
+    m = result.get("mapping")
+    if not isinstance(m, DictS):
+        raise AnalysisError(f"{where}: DataTree.from_dict does not receive a mapping that evaluates to known keys ({m!r:.80})")
+    want_paths = ["/", "/summary", "/summary/info", "/imagery", "/imagery/HH", "/imagery/HV"]
+    chk.require(list(m.items) == want_paths, "C13-A10", where, f"one dataset per group, under its own path, in tree order: {want_paths}",
+                f"DataTree.from_dict receives the paths {list(m.items)} for the groups {want_paths}: groups are dropped, duplicated or renamed", key="datatree:paths")
+    expect = {"/": (["top"], {"vol": "V"}, []), "/summary": ([], {"s": "S"}, []), "/summary/info": ([], {"k": 1}, []), "/imagery": ([], {}, []),
+              "/imagery/HH": (["time", "lat", "data"], {"pol": "HH"}, ["time", "lat"]), "/imagery/HV": (["time", "lat", "data"], {"pol": "HV"}, ["time", "lat"])}
+    for path, ds in m.items.items():
+        if path not in expect or not (isinstance(ds, Obj) and ds.cls == "Dataset"):
+            continue
+        names = list(ds.fields["variables"].items) if isinstance(ds.fields.get("variables"), DictS) else None
+        attrs = {k: (v.v if isinstance(v, Const) else repr(v)) for k, v in ds.fields["attrs"].items.items()} if isinstance(ds.fields.get("attrs"), DictS) else None
+        coords = [c.v for c in ds.fields["coords"].elts if isinstance(c, Const)] if isinstance(ds.fields.get("coords"), (ListLit, TupS)) else None
+        srcs = [v.fields["src"].fields["attrs"].items["of"].v.split(".")[0] for v in ds.fields["variables"].items.values()] if names else []
+        own = path.rsplit("/", 1)[-1] or "root"
+        wn, wa, wc = expect[path]
+        ok = names == wn and attrs == wa and coords == wc and all(s_ == own for s_ in srcs)
+        chk.require(ok, "C13-A10", where, f"{path}: variables {wn}, attrs {wa}, coordinates {wc}",
+                    f"dataset of {path}: variables {names} (from {sorted(set(srcs))}), attrs {attrs}, coordinates {coords}; the group has variables {wn}, attrs {wa} and records the coordinates {wc}",
+                    key=f"datatree:{'root' if path == '/' else path.strip('/').split('/')[0]}:content")
 
 
 def a9(chk, repo):
